@@ -440,11 +440,17 @@ class Mitochondria:
         More complex than glycolysis - like the Krebs cycle in
         the mitochondrial matrix.
         """
-        # Normalize Python boolean literals
-        expression = expression.replace('True', '1').replace('False', '0')
-        expression = expression.replace('true', '1').replace('false', '0')
-
         tree = ast.parse(expression, mode='eval')
+
+        # Normalize lower-case boolean spellings (names only, never text
+        # inside string literals or longer identifiers)
+        class _BooleanNames(ast.NodeTransformer):
+            def visit_Name(self, node: ast.Name) -> ast.AST:
+                if node.id in ('true', 'false'):
+                    return ast.copy_location(ast.Constant(node.id == 'true'), node)
+                return node
+
+        tree = _BooleanNames().visit(tree)
         return bool(self._compute_node(tree.body))
 
     def _oxidative_phosphorylation(self, expression: str) -> Any:
@@ -472,7 +478,7 @@ class Mitochondria:
         self._require_capabilities(tool_name, tool)
 
         args = [self._compute_node(arg) for arg in tree.body.args]
-        kwargs = {kw.arg: self._compute_node(kw.value) for kw in tree.body.keywords if kw.arg}
+        kwargs = self._compute_keywords(tree.body.keywords)
 
         return tool.execute(*args, **kwargs)
 
@@ -517,6 +523,15 @@ class Mitochondria:
 
         raise ValueError(f"Cannot parse as JSON or Python literal: {expression[:50]}...")
 
+    def _compute_keywords(self, keywords: list[ast.keyword]) -> dict[str, Any]:
+        """Compute keyword arguments of a call (``**mapping`` is not supported)."""
+        kwargs: dict[str, Any] = {}
+        for kw in keywords:
+            if kw.arg is None:
+                raise ValueError("Unsupported call syntax: **kwargs")
+            kwargs[kw.arg] = self._compute_node(kw.value)
+        return kwargs
+
     def _compute_node(self, node: ast.AST) -> Any:
         """Recursively compute AST nodes safely."""
 
@@ -549,10 +564,12 @@ class Mitochondria:
                 func_name = node.func.id
                 if func_name in self.SAFE_FUNCTIONS:
                     func = self.SAFE_FUNCTIONS[func_name]
+                    if not callable(func):
+                        # Constants like pi, e cannot be called
+                        raise ValueError(f"'{func_name}' is a constant, not a function")
                     args = [self._compute_node(arg) for arg in node.args]
-                    if callable(func):
-                        return func(*args)
-                    return func  # Constants like pi, e
+                    kwargs = self._compute_keywords(node.keywords)
+                    return func(*args, **kwargs)
                 raise ValueError(f"Unknown function: {func_name}")
             raise ValueError("Complex function calls not supported")
 
@@ -583,13 +600,17 @@ class Mitochondria:
                 left = right
             return True
 
-        # Boolean operations (and, or)
+        # Boolean operations (and, or): short-circuit, value of the deciding operand
         elif isinstance(node, ast.BoolOp):
-            values = [self._compute_node(v) for v in node.values]
-            bool_func = self.SAFE_BOOL_OPS.get(type(node.op))
-            if bool_func is None:
+            if type(node.op) not in self.SAFE_BOOL_OPS:
                 raise ValueError(f"Unsupported boolean op: {type(node.op).__name__}")
-            return bool_func(values)
+            stop_on = isinstance(node.op, ast.Or)
+            result = None
+            for value_node in node.values:
+                result = self._compute_node(value_node)
+                if bool(result) == stop_on:
+                    break
+            return result
 
         # If expressions (ternary)
         elif isinstance(node, ast.IfExp):
